@@ -58,7 +58,15 @@ def units():
     U.fn("al_deallocate", pre_call=GINIT, nullable=["p"], requires=["g_free_calls == 0"], assigns=["g_free_calls", "g_free_ptr"], ensures={
         "deallocate_releases_through_alignedFree_exactly_once": "g_free_calls == 1 && g_free_ptr == (void *)$1"})
     U.fn("al_construct", arrays={"p": 1}, single=["t"], assigns=["*$1"], ensures={"construct_copy_constructs_in_place": "$1[0] == $2[0]"})
-    return [U]
+    # the second back end the sources select on Linux/x86 when RKCOMMON_TASKING_TBB is not defined: _mm_malloc / _mm_free
+    V = Unit("c14_alloc_mm", "units/c14_alloc.cpp", stubs=STUBS,
+             opts=dict(only=["am_alignedMalloc", "am_alignedFree"], models={"_mm_malloc": model("verif_backend_aligned_malloc"), "_mm_free": model("verif_backend_aligned_free")}))
+    V.stub("_mm_malloc / _mm_free", "ASSUMED to return null or a fresh block of `size` bytes whose address is a multiple of `align`, and to release it without touching other blocks")
+    V.fn("am_alignedMalloc", pre_call=GINIT, requires=["g_am_calls == 0 && g_plain_calls == 0"], assigns=GA, ensures={
+        "exactly_one_request_to_the_aligned_back_end_for_the_full_size_and_alignment": ONE % ("$0", "$1")})
+    V.fn("am_alignedFree", pre_call=GINIT, nullable=["ptr"], requires=["g_free_calls == 0"], assigns=["g_free_calls", "g_free_ptr"], ensures={
+        "released_through_the_matching_back_end_exactly_once": "g_free_calls == 1 && g_free_ptr == $0"})
+    return [U, V]
 
 
 META = dict(
@@ -67,5 +75,5 @@ META = dict(
     level_text="alignedMalloc/alignedFree are proved to make exactly one request to the aligned back end with the full size and alignment (and none to an unaligned one) and to release through the matching routine; aligned_allocator<T,64>::allocate is proved for T of size 4 and 24 and every n: n == 0 gives null without allocating, n > max_size() throws length_error without allocating, otherwise exactly one request of n*sizeof(T) bytes (no wrap-around) at alignment 64, null becomes bad_alloc, the result is the back end's block; max_size()*sizeof(T) does not wrap; isAligned(p,a) <=> p mod a == 0; ALIGN_PTR is the least aligned address >= p for power-of-two alignments. Bit-precise CBMC, all 2^64 sizes.",
     level_note="The allocators themselves (TBB scalable_aligned_malloc/free) are interface models with an ASSUMED contract (null or a block of `size` bytes at an address that is a multiple of `align`; release does not corrupt other blocks). That AlignedVector's data() stays 64-byte aligned and elements survive reallocation is std::vector's growth through this allocator and is not modelled.",
     assumptions=["TBB scalable_aligned_malloc / scalable_aligned_free contract (assumed)", "build configuration RKCOMMON_TASKING_TBB as in /repo/_build"],
-    unverified=["AlignedVector growth (std::vector internals)", "heap integrity", "the _mm_malloc / posix_memalign configurations"],
+    unverified=["AlignedVector growth (std::vector internals)", "heap integrity", "the Windows (_aligned_malloc) and Apple-arm64 (posix_memalign) configurations"],
 )
